@@ -607,3 +607,25 @@ impl Complete {
         (items, shell)
     }
 }
+
+/// verification hook: the candidate filter for flag/argument names, `(short, long)` name
+#[cfg(bpaf_verif)]
+#[doc(hidden)]
+#[must_use]
+pub fn verif_arg_matches(arg: &str, short: Option<char>, long: Option<&'static str>) -> Option<String> {
+    let name = match (short, long) {
+        (Some(s), Some(l)) => ShortLong::Both(s, l),
+        (Some(s), None) => ShortLong::Short(s),
+        (None, Some(l)) => ShortLong::Long(l),
+        (None, None) => return None,
+    };
+    arg_matches(arg, name)
+}
+
+/// verification hook: the candidate filter for command names
+#[cfg(bpaf_verif)]
+#[doc(hidden)]
+#[must_use]
+pub fn verif_cmd_matches(arg: &str, name: &'static str, short: Option<char>) -> Option<&'static str> {
+    cmd_matches(arg, name, short)
+}
